@@ -246,6 +246,14 @@ def eitherF32 (f : Opts → String) (o : Opts) (impl : Option String) : String :
     let b := f { o with f32Pinned := true }
     if impl = some b then b else a
 
+/-- the conf loaders of the driver: a type whose flattened fields repeat a lower-cased key goes through the loader WITH the
+merging (`loadTreeM`), every other type through the loaders the theorems are stated for (equal there:
+`loadTreeM_eq_loadTreeO`). -/
+def mergeTy (fs : Fields) : Bool := hasDup (infoFields fs).keys
+def ldJsonO (o : Opts) (fs : Fields) (j : J) : R Val := if mergeTy fs then loadTreeM o fs j else loadJsonO o fs j
+def ldYamlO (o : Opts) (fs : Fields) (y : Y) : R Val := if mergeTy fs then loadTreeM o fs (yamlGlue y) else loadYamlO o fs y
+def ldTomlO (o : Opts) (fs : Fields) (t : T) : R Val := if mergeTy fs then loadTreeM o fs (tomlGlue t) else loadTomlO o fs t
+
 structure St where
   fs : Option Fields := none
   /-- the file-level loads of the section so far (one process): UseEnv of the previous call -/
@@ -381,9 +389,9 @@ def runLoad (r : Report) (s : Section) (l : Line) (fs : Fields) (j : J) (j2 : Op
   r := checkTok r s l "jy" (printTree jy)
   r := checkTok r s l "jt" (tomlFront j (fun t => printTree (tomlGlue t)))
   let oc : Opts := { confOpts with env := envOfTy (.struct fs) }
-  let mLJ := eitherF32 (fun o => printRes (loadJsonO o fs j)) oc (obs? l.obs "LJ")
-  let mLY := eitherF32 (fun o => printRes (loadYamlO o fs (embY j))) oc (obs? l.obs "LY")
-  let mLT := eitherF32 (fun o => tomlFront j (fun t => printRes (loadTomlO o fs t))) oc (obs? l.obs "LT")
+  let mLJ := eitherF32 (fun o => printRes (ldJsonO o fs j)) oc (obs? l.obs "LJ")
+  let mLY := eitherF32 (fun o => printRes (ldYamlO o fs (embY j))) oc (obs? l.obs "LY")
+  let mLT := eitherF32 (fun o => tomlFront j (fun t => printRes (ldTomlO o fs t))) oc (obs? l.obs "LT")
   -- keys colliding up to case: the pinned loader is nondeterministic there; such documents are checked by `cload`
   let coll := !(noCaseCollision j)
   if coll then r := r.addCover "load-collision-unchecked"
@@ -395,9 +403,9 @@ def runLoad (r : Report) (s : Section) (l : Line) (fs : Fields) (j : J) (j2 : Op
   r := r.addCover ("load-" ++ classOf mLJ)
   match j2 with
   | some j2 =>
-    r := ck r "RJ" (eitherF32 (fun o => printRes (loadJsonO o fs j2)) oc (obs? l.obs "RJ"))
-    r := ck r "RY" (eitherF32 (fun o => printRes (loadYamlO o fs (embY j2))) oc (obs? l.obs "RY"))
-    r := ck r "RT" (eitherF32 (fun o => tomlFront j2 (fun t => printRes (loadTomlO o fs t))) oc (obs? l.obs "RT"))
+    r := ck r "RJ" (eitherF32 (fun o => printRes (ldJsonO o fs j2)) oc (obs? l.obs "RJ"))
+    r := ck r "RY" (eitherF32 (fun o => printRes (ldYamlO o fs (embY j2))) oc (obs? l.obs "RY"))
+    r := ck r "RT" (eitherF32 (fun o => tomlFront j2 (fun t => printRes (ldTomlO o fs t))) oc (obs? l.obs "RT"))
   | none => pure ()
   let ou : Opts := { env := envOfTy (.struct fs) }
   let mU := eitherF32 (fun o => printRes (unmarshalWith o fs j)) ou (obs? l.obs "U")
@@ -416,7 +424,7 @@ def runLoad (r : Report) (s : Section) (l : Line) (fs : Fields) (j : J) (j2 : Op
   let oLY := np ((obs? l.obs "LY").getD "?")
   let oLT := np ((obs? l.obs "LT").getD "?")
   if l.obs.any (fun t => t.endsWith "=panic") then
-    let cls := if printRes (loadJsonO { oc with f32Pinned := true } fs j) = "panic" then "env-float32-pointer" else "panic"
+    let cls := if printRes (ldJsonO { oc with f32Pinned := true } fs j) = "panic" then "env-float32-pointer" else "panic"
     r := r.violation s.idx l.idx s!"loader-panicked class={cls} obs=[{joinSp (l.obs.filter fun t => t.endsWith "=panic")}] doc=[{printTree j}]"
   if inScope j ∧ ¬ coll then
     r := r.addCover "format-independence-checked"
@@ -531,13 +539,13 @@ def runCc (r : Report) (s : Section) (l : Line) (fs : Fields) (ws blk : String) 
   r := r.addCover s!"cc-block-scalar-{blk}"
   let run (f : Fmt) : String :=
     match f with
-    | .json => eitherF32 (fun o => printRes (loadJsonO o fs j)) oc (obs? l.obs "LJ")
-    | .yaml => eitherF32 (fun o => printRes (loadYamlO o fs (embY j))) oc (obs? l.obs "LY")
-    | .toml => eitherF32 (fun o => tomlFront j (fun t => printRes (loadTomlO o fs t))) oc (obs? l.obs "LT")
+    | .json => eitherF32 (fun o => printRes (ldJsonO o fs j)) oc (obs? l.obs "LJ")
+    | .yaml => eitherF32 (fun o => printRes (ldYamlO o fs (embY j))) oc (obs? l.obs "LY")
+    | .toml => eitherF32 (fun o => tomlFront j (fun t => printRes (ldTomlO o fs t))) oc (obs? l.obs "LT")
   -- the loaders on an empty value: JSON and YAML reject it, TOML reads the empty table
   let lModel (f : Fmt) : String :=
     if ws = "5" then
-      (match f with | .toml => eitherF32 (fun o => printRes (loadJsonO o fs (.obj .nil))) oc (obs? l.obs "LT") | _ => "err")
+      (match f with | .toml => eitherF32 (fun o => printRes (ldJsonO o fs (.obj .nil))) oc (obs? l.obs "LT") | _ => "err")
     else run f
   -- `ccValue`: unknown Type / empty value => error, else the loader of the Type on exactly these bytes
   let cModel (f : Fmt) : String :=
@@ -656,7 +664,7 @@ def runFmiss (r : Report) (s : Section) (l : Line) (fs : Fields) (ext env api ki
       | none => "err"
       | some .json => "err"                                   -- no JSON value at all
       | some .yaml => "err"                                   -- the empty YAML document is null, rendered as "" : not a table
-      | some .toml => eitherF32 (fun o => printRes (loadJsonO o fs (.obj .nil))) oc (some impl)   -- the empty table
+      | some .toml => eitherF32 (fun o => printRes (ldJsonO o fs (.obj .nil))) oc (some impl)   -- the empty table
   r := r.addCover s!"fmiss-{kind}-{classOf model}"
   if (im ∨ model = "err") ∧ impl ≠ model then r := r.mismatch s.idx l.idx model impl
   if kind ≠ "empty" ∧ impl.startsWith "ok:" then
@@ -701,7 +709,7 @@ def runF32 (r : Report) (s : Section) (l : Line) (lit : String) : Report := Id.r
   let g (k : String) : String := (obs? l.obs k).getD "?"
   let mU := eitherF32 (fun o => printRes (unmarshalWith o f32DrvTy j)) {} (obs? l.obs "U")
   r := checkTok r s l "U" mU
-  r := checkTok r s l "L" (eitherF32 (fun o => printRes (loadJsonO o f32DrvTy j)) confOpts (obs? l.obs "L"))
+  r := checkTok r s l "L" (eitherF32 (fun o => printRes (ldJsonO o f32DrvTy j)) confOpts (obs? l.obs "L"))
   r := checkTok r s l "S" (printRes (stdDecode f32DrvTy j))
   r := r.addCover (if f32StableDoc j then "f32-stable-literal" else "f32-double-rounding-literal")
   if mU ≠ printRes (unmarshalWith {} f32DrvTy j) then r := r.addCover "pinned-float32-double-rounding"
@@ -751,11 +759,11 @@ def runFload (r : Report) (s : Section) (l : Line) (fs : Fields) (ext : String) 
   let impl := l.obs.headD "?"
   -- keys colliding up to case (expansion does not touch keys): toLowerCaseKeyMap walks the keys of every object in
   -- ascending order and the later one wins — the association-list model is faithful only on the sorted document
-  -- (`loadJsonDet` = `loadJsonO ∘ sortDoc`, as in `cload`; regression: thorough seed 15840 section 1969)
+  -- (`loadJsonDet` = `ldJsonO ∘ sortDoc`, as in `cload`; regression: thorough seed 15840 section 1969)
   let coll := !(noCaseCollision j)
-  let lj (o : Opts) (d : J) : R Val := if coll then loadJsonDet o fs d else loadJsonO o fs d
-  let ly (o : Opts) (d : J) : R Val := if coll then loadYamlDet o fs (embY d) else loadYamlO o fs (embY d)
-  let lt (o : Opts) (t : T) : R Val := if coll then loadTomlDet o fs t else loadTomlO o fs t
+  let lj (o : Opts) (d : J) : R Val := if coll then loadJsonDet o fs d else ldJsonO o fs d
+  let ly (o : Opts) (d : J) : R Val := if coll then loadYamlDet o fs (embY d) else ldYamlO o fs (embY d)
+  let lt (o : Opts) (t : T) : R Val := if coll then loadTomlDet o fs t else ldTomlO o fs t
   if coll then r := r.addCover "fload-collision-sorted-walk"
   let model : String :=
     match loaderOf ext.toList with
@@ -840,17 +848,17 @@ def runPload (r : Report) (s : Section) (l : Line) (fs : Fields) (workers : Stri
     let ck (r : Report) (key model : String) : Report :=
       if coll then r.addCover "pload-collision-unchecked" else checkTokM im r s l key model
     let tomlOk := tomlFront j (fun _ => "x") ≠ "skip"
-    r := ck r s!"J{i}" (eitherF32 (fun o => printRes (loadJsonO o fs j)) oc (obs? l.obs s!"J{i}"))
-    r := ck r s!"Y{i}" (eitherF32 (fun o => printRes (loadYamlO o fs (embY j))) oc (obs? l.obs s!"Y{i}"))
-    r := ck r s!"T{i}" (eitherF32 (fun o => tomlFront j (fun t => printRes (loadTomlO o fs t))) oc (obs? l.obs s!"T{i}"))
+    r := ck r s!"J{i}" (eitherF32 (fun o => printRes (ldJsonO o fs j)) oc (obs? l.obs s!"J{i}"))
+    r := ck r s!"Y{i}" (eitherF32 (fun o => printRes (ldYamlO o fs (embY j))) oc (obs? l.obs s!"Y{i}"))
+    r := ck r s!"T{i}" (eitherF32 (fun o => tomlFront j (fun t => printRes (ldTomlO o fs t))) oc (obs? l.obs s!"T{i}"))
     r := ck r s!"MY{i}" (eitherF32 (fun o => printRes (unmarshalYaml o fs (embY j))) ou (obs? l.obs s!"MY{i}"))
     r := ck r s!"MT{i}" (eitherF32 (fun o => tomlFront j (fun t => printRes (unmarshalToml o fs t))) ou (obs? l.obs s!"MT{i}"))
     let useEnv := i % 2 = 1
     let j' := if useEnv then expandDoc j else j
     let fl : String :=
-      if i % 3 = 0 then eitherF32 (fun o => printRes (loadJsonO o fs j')) oc (obs? l.obs s!"FL{i}")
-      else if i % 3 = 1 ∨ ¬ tomlOk then eitherF32 (fun o => printRes (loadYamlO o fs (embY j'))) oc (obs? l.obs s!"FL{i}")
-      else eitherF32 (fun o => tomlFront j' (fun t => printRes (loadTomlO o fs t))) oc (obs? l.obs s!"FL{i}")
+      if i % 3 = 0 then eitherF32 (fun o => printRes (ldJsonO o fs j')) oc (obs? l.obs s!"FL{i}")
+      else if i % 3 = 1 ∨ ¬ tomlOk then eitherF32 (fun o => printRes (ldYamlO o fs (embY j'))) oc (obs? l.obs s!"FL{i}")
+      else eitherF32 (fun o => tomlFront j' (fun t => printRes (ldTomlO o fs t))) oc (obs? l.obs s!"FL{i}")
     r := ck r s!"FL{i}" fl
     -- MO: mapping.UnmarshalJsonBytes with the option set (5 i + 1) mod 16 (different from document to document)
     let om : Opts := { optsOfBits ((i * 5 + 1) % 16) with env := envOfTy (.struct fs) }
@@ -953,6 +961,7 @@ def runSection (r : Report) (s : Section) : Report := Id.run do
       | some fs =>
         st := { fs := some fs }
         r := r.addCover (if plainTy (.struct fs) then "type-plain" else "type-tagged")
+        if mergeTy fs then r := r.addCover "type-embedded-structs-share-a-key-merged"
         r := r.addCover (if tyInModel (.struct fs) then "type-in-model" else "type-deep-pointer-outside-model")
         if tyHasPtrElem (.struct fs) then r := r.addCover "type-pointer-elements"
         if tyHasDotKey (.struct fs) then r := r.addCover "type-dotted-key"
